@@ -48,6 +48,109 @@ pub fn max_matching_ref(abs: &Abs) -> usize {
     go(((1u64 << n) - 1) as u32, &adjm, &mut memo) as usize
 }
 
+/// maximum matching size of the undirected view (loops ignored) for any n: textbook Edmonds blossom algorithm
+/// (BFS forest, blossom contraction through `base`), O(V^3).  Cross-checked against the subset DP on every small case.
+pub fn max_matching_blossom(abs: &Abs) -> usize {
+    let n = abs.n;
+    let mut adj = vec![vec![]; n];
+    for &(u, v, _) in &abs.edges {
+        if u != v {
+            adj[u].push(v);
+            adj[v].push(u);
+        }
+    }
+    const NIL: usize = usize::MAX;
+    let mut mate = vec![NIL; n];
+    let mut p = vec![NIL; n];
+    let mut base: Vec<usize> = (0..n).collect();
+    fn lca(mut a: usize, mut b: usize, base: &[usize], mate: &[usize], p: &[usize]) -> usize {
+        let mut seen = vec![false; base.len()];
+        loop {
+            a = base[a];
+            seen[a] = true;
+            if mate[a] == NIL {
+                break;
+            }
+            a = p[mate[a]];
+        }
+        loop {
+            b = base[b];
+            if seen[b] {
+                return b;
+            }
+            b = p[mate[b]];
+        }
+    }
+    fn mark_path(mut v: usize, b: usize, mut x: usize, base: &[usize], mate: &[usize], p: &mut [usize], blossom: &mut [bool]) {
+        while base[v] != b {
+            blossom[base[v]] = true;
+            blossom[base[mate[v]]] = true;
+            p[v] = x;
+            x = mate[v];
+            v = p[mate[v]];
+        }
+    }
+    let mut size = 0;
+    for root in 0..n {
+        if mate[root] != NIL {
+            continue;
+        }
+        // find an augmenting path from root
+        let mut used = vec![false; n];
+        for i in 0..n {
+            p[i] = NIL;
+            base[i] = i;
+        }
+        used[root] = true;
+        let mut q = std::collections::VecDeque::new();
+        q.push_back(root);
+        let mut end = NIL;
+        'bfs: while let Some(v) = q.pop_front() {
+            for k in 0..adj[v].len() {
+                let to = adj[v][k];
+                if base[v] == base[to] || mate[v] == to {
+                    continue;
+                }
+                if to == root || (mate[to] != NIL && p[mate[to]] != NIL) {
+                    let cur = lca(v, to, &base, &mate, &p);
+                    let mut blossom = vec![false; n];
+                    mark_path(v, cur, to, &base, &mate, &mut p, &mut blossom);
+                    mark_path(to, cur, v, &base, &mate, &mut p, &mut blossom);
+                    for i in 0..n {
+                        if blossom[base[i]] {
+                            base[i] = cur;
+                            if !used[i] {
+                                used[i] = true;
+                                q.push_back(i);
+                            }
+                        }
+                    }
+                } else if p[to] == NIL {
+                    p[to] = v;
+                    if mate[to] == NIL {
+                        end = to;
+                        break 'bfs;
+                    }
+                    used[mate[to]] = true;
+                    q.push_back(mate[to]);
+                }
+            }
+        }
+        if end != NIL {
+            size += 1;
+            let mut u = end;
+            while u != NIL {
+                let pv = p[u];
+                let ppv = mate[pv];
+                mate[u] = pv;
+                mate[pv] = u;
+                u = ppv;
+            }
+        }
+    }
+    size
+}
+
 /// validity + accessor consistency; returns the matching size
 pub fn check_matching_valid<G>(cx: &mut Cx, abs: &Abs, g: G, ids: &[G::NodeId], m: &Matching<G>, what: &str) -> R<usize>
 where
@@ -115,7 +218,17 @@ where
     let _ = check_matching_valid(cx, abs, g, ids, &gm, "greedy_matching");
     let mm = algo::maximum_matching(g);
     let size = check_matching_valid(cx, abs, g, ids, &mm, "maximum_matching")?;
-    let opt = max_matching_ref(abs);
+    let opt = if abs.n <= 16 {
+        let a = max_matching_ref(abs);
+        let b = max_matching_blossom(abs);
+        if a != b {
+            cx.harness_errors.push(format!("case {}: the two matching oracles disagree ({} vs {}) on {}", cx.case, a, b, abs.describe()));
+        }
+        a
+    } else {
+        cx.count("matching:judged-by-the-blossom-oracle(n>16)");
+        max_matching_blossom(abs)
+    };
     if abs.directed {
         // optimality on directed storage is judged under its own signature (documented:
         // "treated as if undirected"; the code follows outgoing edges only)
@@ -240,8 +353,9 @@ fn flow_cancel_family(rng: &mut Rng) -> Abs {
 
 pub fn case(cx: &mut Cx, rng: &mut Rng) -> R {
     let nmax = if cx.small { 6 } else if rng.chance(1, 8) { 14 } else { 9 };
-    // ---- matching
-    let mut o = GenOpts::new(nmax);
+    // ---- matching (a share of larger graphs: stacked blossoms need room)
+    let nmatch = if !cx.small && rng.chance(1, if cx.thorough { 12 } else { 30 }) { *rng.pick(&[24, 40, 70]) } else { nmax };
+    let mut o = GenOpts::new(nmatch);
     if rng.chance(3, 4) {
         o.directed = Some(false);
     }
@@ -258,10 +372,11 @@ pub fn case(cx: &mut Cx, rng: &mut Rng) -> R {
             let _ = check_matchings(cx, &abs, g, ids, tag.name());
         });
     // ---- flow
+    let nflow = if !cx.small && rng.chance(1, if cx.thorough { 12 } else { 30 }) { 30 } else { nmax.min(10) };
     let net = if rng.chance(1, 3) {
         flow_cancel_family(rng)
     } else {
-        gen(rng, &GenOpts::new(nmax.min(10)).directed(true).weights(0, 6))
+        gen(rng, &GenOpts::new(nflow).directed(true).weights(0, 6))
     };
     cx.log(|| format!("flow input: {}", net.describe()));
     cx.count(&format!("flow-family:{}", net.family));
